@@ -156,6 +156,9 @@ func Files() []*descriptorpb.FileDescriptorProto {
 	leaf.scalar("b", 3, typeOf("bytes"))
 	leaf.mapField("m", 4, "string", typeOf("int32"), "")
 	leaf.mapField("bm", 5, "bool", typeOf("bytes"), "")
+	leaf.repeated("rb", 6, typeOf("bytes")) // repeated bytes/string with one-byte tags
+	leaf.repeated("rs", 7, typeOf("string"))
+	leaf.repeated("ri", 8, typeOf("sint32"))
 
 	// Nested.Leaf shares its short name with the top-level Leaf.
 	nested := newMsg("Nested", pkgDot)
